@@ -63,13 +63,19 @@ def same_result(g, e):
     return model.compare(common.as_ma(g), common.as_ma(e), "x") is None
 
 
+TIE_TOL = []
+
+
 def gen_label_index(rng, arr, unsorted_ok):
     idx, kinds = [], []
+    del TIE_TOL[:]
     for ax in arr.axes:
         lab = ax.values.tolist()
         n = len(lab)
         kind = gen.kind_of(lab)
-        ik = rng.choice(['scalar', 'list', 'mask', 'full', 'slice', 'absent', 'near', 'unsorted', 'one'])
+        ik = rng.choice(['scalar', 'list', 'mask', 'full', 'slice', 'absent', 'near', 'unsorted', 'one', 'tie'])
+        if ik == 'tie' and (kind == 's' or n < 2):
+            ik = 'scalar'
         if ik == 'scalar':
             idx.append(lab[rng.randrange(n)])
         elif ik == 'one':
@@ -86,6 +92,11 @@ def gen_label_index(rng, arr, unsorted_ok):
             idx.append(slice(lab[i], lab[j], rng.choice([None, None, 2])))
         elif ik == 'absent':
             idx.append(gen.absent_label(rng, lab, kind))
+        elif ik == 'tie':
+            # exactly half-way between two labels that follow each other on the axis: with a tolerance both are equally near
+            p = rng.randrange(n - 1)
+            idx.append((lab[p] + lab[p + 1]) / 2.0)
+            TIE_TOL.append(abs(lab[p + 1] - lab[p]) / 2.0)
         elif ik == 'near' and kind != 's':
             idx.append(lab[rng.randrange(n)] + rng.choice([0.25, -0.25, 0.5]))
         else:
@@ -122,6 +133,9 @@ def read_body(case, ctx, tmp):
             for trial in range(6):
                 idx, ikinds = gen_label_index(rng, m, True)
                 tol = rng.choice([None, None, 0.3, 0.6]) if 'near' in ikinds else None
+                if 'tie' in ikinds:
+                    tol = max(TIE_TOL) * rng.choice([1.0, 1.5])
+                    ctx.outcomes['ondisk-tolerance-ties'] += 1
                 t = tuple(idx)
                 single = t[0] if len(t) == 1 else t
                 dct = {d: ix for d, ix in zip(m.dims, idx) if not c01.is_full(ix)}
@@ -365,6 +379,7 @@ def unlimited_body(case, ctx, tmp):
         g.axes.append('time')
         g.axes.append(da.Axis(gen.np_labels(items, ikind), 'item'))
         g.nc.createVariable('v', 'f8', ('time', 'item'))
+        g.nc.createVariable('w', 'f8', ('time', 'item'))        # never written: its records exist only because 'v' grows (missing cells)
         pos = 0
         for step in range(rng.randint(1, 5)):
             k = rng.randint(1, 3)
@@ -399,6 +414,28 @@ def unlimited_body(case, ctx, tmp):
             if msg:
                 ctx.v(ID, "unlimited:content", msg)
                 return [('unlimited', 'mismatch')]
+        # the cells of 'w' are missing data: every index form, all-scalar ones included, reads what the loaded array holds there
+        wl, wexc = ctx.call("open_nc(f)['w'][:] (never written, %d records)" % pos, lambda: g['w'][:], operands=())
+        if wexc is None and common.is_da(wl) and pos:
+            for trial in range(4):
+                i_, j_ = rng.randrange(pos), rng.randrange(len(items))
+                for nm_, fr_, fm_ in (("ix[%d, %d]" % (i_, j_), lambda: g['w'].ix[i_, j_], lambda: wl.ix[i_, j_]),
+                                      ("[%r, %r]" % (tlabels[i_], items[j_]), lambda: g['w'][tlabels[i_], items[j_]], lambda: wl[tlabels[i_], items[j_]]),
+                                      ("ix[%d]" % i_, lambda: g['w'].ix[i_], lambda: wl.ix[i_]),
+                                      ("read_nc(indices=all scalars)", lambda: da.read_nc(fn, 'w', indices={'time': tlabels[i_], 'item': items[j_]}) if False else g['w'].read(indices={'time': tlabels[i_], 'item': items[j_]}),
+                                       lambda: wl.take({'time': tlabels[i_], 'item': items[j_]}))):
+                    gv_, gexc_ = ctx.call("open_nc(f)['w'].%s on missing cells" % nm_, fr_, operands=())
+                    ctx.outcomes['ondisk-reads-of-missing-cells'] += 1
+                    try:
+                        ev_ = fm_()
+                    except Exception as ex_:
+                        ev_ = ex_
+                    ga_ = np.asarray(gv_.values if common.is_da(gv_) else gv_, dtype=float) if gexc_ is None else None
+                    ea_ = np.asarray(ev_.values if common.is_da(ev_) else ev_, dtype=float) if not isinstance(ev_, Exception) else None
+                    if (ga_ is None) != (ea_ is None) or (ga_ is not None and not (ga_.shape == ea_.shape and np.array_equal(ga_, ea_, equal_nan=True))):
+                        ctx.v(ID, "unlimited:missing-cells", "open_nc(f)['w'].%s on a variable that was never written returned %r, the loaded array gives %r" % (
+                            nm_, gexc_ if gexc_ is not None else ga_.tolist(), ev_ if ea_ is None else ea_.tolist()))
+                        break
     finally:
         g.close()
     r = da.read_nc(fn)['v']
